@@ -591,6 +591,9 @@ class SymDA:
             return self
         raise Unsupported(f"sum over {dims} of a {len(self._dims)}-d array")
 
+    def std(self, dim, ddof=0):
+        return self.var(dim, ddof) ** 0.5
+
     def var(self, dim, ddof=0):
         ax = self._axis(dim)
         if len(self._dims) != 2:
